@@ -100,6 +100,7 @@ class Interp:
         self.returns = []    # (state, value, bb, node)
         self.events = []
         self.cur_node = None
+        self._live = None
 
     # -- locations -----------------------------------------------------------------------
     # a location is ('L', local, proj) or ('O', path)
@@ -186,7 +187,10 @@ class Interp:
         if loc[0] == "L":
             if not loc[2]:
                 ty = self.body.locals[loc[1]]["ty"]
-                return st.set(("l", loc[1]), self.h.coerce(self, val, ty))
+                v = self.h.coerce(self, val, ty)
+                if v == TOP:
+                    return st.delete(("l", loc[1]))      # absent == unknown
+                return st.set(("l", loc[1]), v)
             base = st.get(("l", loc[1]), TOP)
             return st.set(("l", loc[1]), self.proj_write(base, loc[2], val))
         if loc[0] == "O":
@@ -289,6 +293,8 @@ class Interp:
 
     # -- exploration ----------------------------------------------------------------------------
     def node(self, bb, st):
+        st = self.prune(bb, st)
+        self.last_pruned = st
         k = (bb, st)
         n = self.nodes.get(k)
         if n is None:
@@ -313,8 +319,94 @@ class Interp:
                 n, new = self.node(tbb, tst)
                 self.edges[nid].append((n, label))
                 if new:
-                    work.append((tbb, tst, n))
+                    work.append((tbb, self.last_pruned, n))
         return self
+
+    def liveness(self):
+        """backward liveness of locals whose address is never taken; returns live_in per block (None = keep all)"""
+        if self._live is not None:
+            return self._live
+        from .facts import rv_operands
+        body = self.body
+        nb = len(body.blocks)
+        borrowed = set()
+        use = [set() for _ in range(nb)]
+        dfn = [set() for _ in range(nb)]
+
+        def mention(pl, b, is_def=False):
+            l = pl["l"]
+            for e in pl["p"]:
+                if isinstance(e, dict) and "idx" in e and e["idx"] not in dfn[b]:
+                    use[b].add(e["idx"])
+            if is_def and not pl["p"]:
+                dfn[b].add(l)
+            elif l not in dfn[b]:
+                use[b].add(l)
+        for b, blk in enumerate(body.blocks):
+            for s_ in blk["stmts"]:
+                if s_["k"] == "assign":
+                    rv = s_["rv"]
+                    if rv["k"] in ("ref", "rawptr"):
+                        borrowed.add(rv["pl"]["l"])
+                        mention(rv["pl"], b)
+                    elif rv["k"] == "discr":
+                        mention(rv["pl"], b)
+                    for o in rv_operands(rv):
+                        if o.get("k") in ("copy", "move"):
+                            mention(o["pl"], b)
+                    mention(s_["pl"], b, True)
+                elif s_["k"] in ("fakeread", "mention"):
+                    pass
+            t = blk["term"]
+            k = t["k"]
+            if k == "switch":
+                if t["discr"].get("k") in ("copy", "move"):
+                    mention(t["discr"]["pl"], b)
+            elif k in ("call", "tailcall"):
+                for a in t.get("args", []):
+                    if a.get("k") in ("copy", "move"):
+                        mention(a["pl"], b)
+                f = t.get("func")
+                if f and f.get("k") in ("copy", "move"):
+                    mention(f["pl"], b)
+                if t.get("dest"):
+                    mention(t["dest"], b, True)
+            elif k == "drop":
+                mention(t["pl"], b)
+            elif k == "assert":
+                if t["cond"].get("k") in ("copy", "move"):
+                    mention(t["cond"]["pl"], b)
+            elif k == "yield":
+                if t["value"].get("k") in ("copy", "move"):
+                    mention(t["value"]["pl"], b)
+            elif k == "return":
+                use[b].add(0)
+        live_in = [set() for _ in range(nb)]
+        succ = body.succ_map()
+        changed = True
+        while changed:
+            changed = False
+            for b in range(nb - 1, -1, -1):
+                out = set()
+                for s2 in succ[b]:
+                    out |= live_in[s2]
+                new = use[b] | (out - dfn[b])
+                if new != live_in[b]:
+                    live_in[b] = new
+                    changed = True
+        self._live = (live_in, borrowed)
+        return self._live
+
+    def prune(self, bb, st):
+        live_in, borrowed = self.liveness()
+        keep = live_in[bb]
+        dead = [k for k in st.d if k[0] == "l" and k[1] not in keep and k[1] not in borrowed and k[1] > self.body.nargs]
+        if not dead:
+            return st
+        nd = dict(st.d)
+        for k in dead:
+            del nd[k]
+        return State(nd)
 
     def step_block(self, bb, st):
         body = self.body
